@@ -135,13 +135,27 @@ def _config(dim, variant=None):
     return str(p)
 
 
-def _mk(case, nrep):
+def _private_config(case):
+    """a scratch YAML file of this process only (it is rewritten after the object has been built)"""
+    d = core.VERIF / ".cache" / "c14"
+    d.mkdir(parents=True, exist_ok=True)
+    p = d / f"scratch_{os.getpid()}.yaml"
+    with open(_config(case["dim"], case.get("cfg"))) as fh:
+        p.write_text(fh.read())
+    return str(p)
+
+
+def _mk(case, nrep, path=None):
     from ethz_snow.snowing import Snowing
     from ethz_snow.operatingConditions import OperatingConditions
 
     oc, s0 = PROGRAMS[case["prog"]]
-    return Snowing(k={"int": 0, "ext": 0, "s0": s0, "s_sigma_rel": 0}, opcond=OperatingConditions(**oc),
-                   Nrep=nrep, configPath=_config(case["dim"], case.get("cfg")))
+    S = Snowing(k={"int": 0, "ext": 0, "s0": s0, "s_sigma_rel": 0}, opcond=OperatingConditions(**oc),
+                Nrep=nrep, configPath=path or _config(case["dim"], case.get("cfg")))
+    # constants adjusted directly on the object after construction belong to the object
+    for key, val in ((case.get("tamper") or {}).get("const") or {}).items():
+        S.const[key] = val
+    return S
 
 
 def _single(S, case, seed):
@@ -212,7 +226,13 @@ def run_impl(case):
         np.random.seed(10**6 + case.get("gstate", 99))
         np.random.random_sample(case.get("gdraws", 3))
         w0 = np.random.get_state()
-        S = _mk(case, nrep)
+        tamper = case.get("tamper") or {}
+        scratch = _private_config(case) if tamper.get("file") else None
+        S = _mk(case, nrep, scratch)
+        if scratch:
+            # the scratch file is rewritten for "the next sweep point": the object keeps ITS constants
+            with open(scratch, "a") as fh:
+                fh.write(tamper["file"])
         out = []
         for op in case["ops"]:
             mark = len(EVENTS)
@@ -241,6 +261,8 @@ def run_impl(case):
         # the single run on the USED object, global generator perturbed: must equal the reference
         np.random.seed(4242)
         obs["used"] = [_single(S, case, i) for i in range(min(nmax, 2 if case["dim"] == "homogeneous" else 1))]
+        if scratch and os.path.exists(scratch):
+            os.remove(scratch)
         return obs
     except Exception as e:
         import traceback
@@ -388,6 +410,8 @@ def predicates(case, impl):
 
 def classify(case, impl):
     hows = "+".join((o[1] if o[0] == "run" else f"Nrep={o[1]}") for o in case["ops"] if o[0] in ("run", "setNrep"))
+    if case.get("tamper"):
+        hows += " [config file rewritten / const adjusted after construction]"
     return [f"dim={case['dim']}" + (f"/{case['cfg']}" if case.get("cfg") else ""), f"nrep={case['nrep']}", f"cpu={case['cpu']}", f"prog={case['prog']}",
             f"hows={hows}"]
 
@@ -437,6 +461,16 @@ def cases(rng, tier):
                 yield dict(dim="homogeneous", nrep=n1, cpu=rng.choice([1, 2, 16]), prog=rng.choice(progs),
                            ops=[["run", h1], R, ["setNrep", n2], ["run", h2], R], gstate=rng.randrange(1000),
                            gdraws=rng.randrange(1, 5))
+    # the configuration file is rewritten / constants are adjusted AFTER construction: sequential and parallel rows
+    # must both be the single runs on the object's OWN constants
+    for tamper in ({"file": "kinetics:\n  b: 31.0\n"}, {"const": {"b": 30.5}},
+                   {"file": "kinetics:\n  a: 27.5\n", "const": {"b": 30.0}}):
+        for hows in (["async"], ["sequential", "async"], ["async", "sequential"]):
+            ops = []
+            for how in hows:
+                ops += [["run", how], R]
+            yield dict(dim="homogeneous", nrep=3, cpu=rng.choice([1, 2, 16]), prog=rng.choice(progs), ops=ops,
+                       tamper=tamper, gstate=rng.randrange(1000), gdraws=rng.randrange(1, 5))
     # the program of the package's documentation (3 h process)
     for how in ("sequential", "async"):
         yield dict(dim="homogeneous", nrep=3, cpu=2, prog="A", ops=[["run", how], R], gstate=5, gdraws=2)
